@@ -57,22 +57,30 @@ func menuStrings() [][][]byte {
 	return [][][]byte{bs("SET", "s1", "v"), bs("SET", "s1", "a\r\n+OK"), bs("GET", "s1"), bs("SETNX", "s1", "w"), bs("GETSET", "s1", "x"), bs("APPEND", "s1", "yz"),
 		bs("STRLEN", "s1"), bs("GETRANGE", "s1", "0", "-1"), bs("GETRANGE", "s1", "1", "5"), bs("MSET", "s1", "1", "s2", "2"), bs("MSETNX", "s1", "3", "s2", "4"), bs("MGET", "s1", "s2", "s3"),
 		bs("INCR", "s1"), bs("DECRBY", "s1", "5"), bs("SET", "s1", "9223372036854775807"), bs("DEL", "s1"), bs("EXISTS", "s1", "s1", "s2"), bs("RENAME", "s1", "s1"), bs("RENAME", "s1", "s2"),
-		bs("RENAMENX", "s1", "s2"), bs("RENAMENX", "s1", "s1"), bs("TYPE", "s1"), bs("KEYS", "s*"), bs("KEYS", "s?"), bs("SET", "s2", ""), bs("GET", "s2")}
+		bs("RENAMENX", "s1", "s2"), bs("RENAMENX", "s1", "s1"), bs("TYPE", "s1"), bs("KEYS", "s*"), bs("KEYS", "s?"), bs("SET", "s2", ""), bs("GET", "s2"),
+		// empty values and a key only ever touched through derived commands
+		bs("APPEND", "s3", ""), bs("APPEND", "s1", ""), bs("EXISTS", "s3"), bs("GET", "s3"), bs("SETNX", "s3", "n"), bs("MSETNX", "s3", "m"), bs("GETSET", "s3", ""), bs("STRLEN", "s3"),
+		bs("INCRBY", "s3", "0"), bs("DECRBY", "s3", "0"), bs("GETRANGE", "s3", "0", "0"), bs("DEL", "s3"), bs("MSET", "s3", ""), bs("MGET", "s3", "s3")}
 }
 func menuHashes() [][][]byte {
 	return [][][]byte{bs("HSET", "h1", "f", "v"), bs("HSET", "h1", "g", "w"), bs("HSET", "h1", "f", "x"), bs("HSETNX", "h1", "f", "y"), bs("HSETNX", "h1", "n", "y"), bs("HGET", "h1", "f"), bs("HGET", "h1", "zz"),
 		bs("HDEL", "h1", "f"), bs("HDEL", "h1", "f", "g", "f", "n"), bs("HGETALL", "h1"), bs("HKEYS", "h1"), bs("HVALS", "h1"), bs("HLEN", "h1"), bs("HEXISTS", "h1", "f"), bs("HSTRLEN", "h1", "f"),
-		bs("HMSET", "h1", "a", "1", "b", "2", "a", "3"), bs("HMGET", "h1", "a", "b", "c", "a"), bs("EXISTS", "h1"), bs("TYPE", "h1"), bs("DEL", "h1"), bs("RENAME", "h1", "h2"), bs("HGETALL", "h2"), bs("KEYS", "*")}
+		bs("HMSET", "h1", "a", "1", "b", "2", "a", "3"), bs("HMGET", "h1", "a", "b", "c", "a"), bs("EXISTS", "h1"), bs("TYPE", "h1"), bs("DEL", "h1"), bs("RENAME", "h1", "h2"), bs("HGETALL", "h2"), bs("KEYS", "*"),
+		// the renamed hash is used further, emptied, renamed back
+		bs("HDEL", "h2", "f", "g", "n", "a", "b"), bs("HDEL", "h2", "f"), bs("HSET", "h2", "f", "2"), bs("HLEN", "h2"), bs("EXISTS", "h1", "h2"), bs("RENAME", "h2", "h1"), bs("DEL", "h2")}
 }
 func menuLists() [][][]byte {
 	return [][][]byte{bs("RPUSH", "l1", "a"), bs("RPUSH", "l1", "b", "c"), bs("LPUSH", "l1", "x", "y"), bs("LPUSHX", "l1", "p"), bs("RPUSHX", "l2", "q"), bs("LPOP", "l1"), bs("RPOP", "l1"),
 		bs("LPOP", "l1", "2"), bs("RPOP", "l1", "3"), bs("LRANGE", "l1", "0", "-1"), bs("LRANGE", "l1", "1", "1"), bs("LRANGE", "l1", "-2", "10"), bs("LRANGE", "l1", "3", "1"),
 		bs("LRANGE", "l1", "-100", "100"), bs("LINDEX", "l1", "0"), bs("LINDEX", "l1", "-1"), bs("LINDEX", "l1", "7"), bs("LLEN", "l1"), bs("LLEN", "l2"), bs("EXISTS", "l1", "l2"), bs("TYPE", "l1"),
-		bs("DEL", "l1"), bs("RENAME", "l1", "l2"), bs("LRANGE", "l2", "0", "-1"), bs("KEYS", "l*")}
+		bs("DEL", "l1"), bs("RENAME", "l1", "l2"), bs("LRANGE", "l2", "0", "-1"), bs("KEYS", "l*"),
+		// the renamed list is used further, drained, renamed back
+		bs("LPOP", "l2"), bs("RPOP", "l2"), bs("LPOP", "l2", "5"), bs("RPUSH", "l2", "z"), bs("RENAME", "l2", "l1"), bs("DEL", "l2"), bs("TYPE", "l2")}
 }
 func menuSets() [][][]byte {
 	return [][][]byte{bs("SADD", "t1", "a"), bs("SADD", "t1", "b", "a", "b", "c"), bs("SREM", "t1", "a"), bs("SREM", "t1", "a", "b", "c", "a"), bs("SMEMBERS", "t1"), bs("SCARD", "t1"),
-		bs("SISMEMBER", "t1", "a"), bs("SISMEMBER", "t1", "zz"), bs("SMEMBERS", "t2"), bs("SCARD", "t2"), bs("EXISTS", "t1", "t2"), bs("TYPE", "t1"), bs("DEL", "t1"), bs("RENAME", "t1", "t2"), bs("KEYS", "t?")}
+		bs("SISMEMBER", "t1", "a"), bs("SISMEMBER", "t1", "zz"), bs("SMEMBERS", "t2"), bs("SCARD", "t2"), bs("EXISTS", "t1", "t2"), bs("TYPE", "t1"), bs("DEL", "t1"), bs("RENAME", "t1", "t2"), bs("KEYS", "t?"),
+		bs("SREM", "t2", "a", "b", "c"), bs("SREM", "t2", "a"), bs("SADD", "t2", "x"), bs("RENAME", "t2", "t1"), bs("DEL", "t2"), bs("TYPE", "t2")}
 }
 func menuZSets() [][][]byte {
 	return [][][]byte{bs("ZADD", "z1", "1", "a"), bs("ZADD", "z1", "2", "b", "1", "c"), bs("ZADD", "z1", "2", "a"), bs("ZADD", "z1", "1", "b", "0.5", "d"), bs("ZADD", "z1", "-1", "e", "1.5", "a"),
@@ -83,7 +91,8 @@ func menuZSets() [][][]byte {
 		bs("ZRANGEBYSCORE", "z1", "0", "5", "LIMIT", "0", "-1"), bs("ZREVRANGEBYSCORE", "z1", "2", "1"), bs("ZREVRANGEBYSCORE", "z1", "+inf", "-inf", "WITHSCORES"), bs("ZREVRANGEBYSCORE", "z1", "(2", "(1"),
 		bs("ZREVRANGEBYSCORE", "z1", "(2", "1"), bs("ZREVRANGEBYSCORE", "z1", "2", "(1", "WITHSCORES"), bs("ZREVRANGEBYSCORE", "z1", "+inf", "-inf", "LIMIT", "0", "1"),
 		bs("ZREVRANGEBYSCORE", "z1", "5", "0", "WITHSCORES", "LIMIT", "1", "2"),
-		bs("EXISTS", "z1", "z2"), bs("TYPE", "z1"), bs("DEL", "z1"), bs("RENAME", "z1", "z2"), bs("ZRANGE", "z2", "0", "-1"), bs("KEYS", "z*")}
+		bs("EXISTS", "z1", "z2"), bs("TYPE", "z1"), bs("DEL", "z1"), bs("RENAME", "z1", "z2"), bs("ZRANGE", "z2", "0", "-1"), bs("KEYS", "z*"),
+		bs("ZREM", "z2", "a", "b", "c", "d", "e", "n"), bs("ZREM", "z2", "a"), bs("ZADD", "z2", "1", "q"), bs("RENAME", "z2", "z1"), bs("DEL", "z2"), bs("TYPE", "z2")}
 }
 
 func genC18(tier string, seed uint64, emit func(string)) {
